@@ -51,7 +51,7 @@ public:
 
   double randC() const
   {
-    return RandomTools::randGaussian(mu_, sigma_);
+    return RandomTools::randGaussian(mu_, sigma_ * sigma_);
   }
 
   double qProb(double x) const;
